@@ -333,13 +333,64 @@ func runC10(sc *Scenario, keepLog bool) *RunReport {
 		b, okB := seen[fmt.Sprintf("%s|%v", op.Doc, true)]
 		if okA && okB && a.out.panic == "" && b.out.panic == "" {
 			if miss, ok := subset(a.out.errors, b.out.errors); !ok {
-				viol(i, op, "not-monotone", "errors", "every error reported when stopping early is also reported with continue-on-errors", miss,
+				site := "errors+" + quotedRe.ReplaceAllString(miss, "_")
+				if templateIn(miss, b.out.errors) {
+					site = "errors~" + quotedRe.ReplaceAllString(miss, "_")
+				}
+				viol(i, op, "not-monotone", site, "every error reported when stopping early is also reported with continue-on-errors", miss,
 					fmt.Sprintf("error reported with continue-on-errors=false (validation #%d) is missing with continue-on-errors=true (validation #%d)", a.op, b.op))
 				break
 			}
 			if a.out.valid != b.out.valid {
 				viol(i, op, "not-monotone", "verdict", fmt.Sprint(a.out.valid), fmt.Sprint(b.out.valid), "verdict differs between the two continue-on-errors settings")
 				break
+			}
+		}
+	}
+	// "in the same or another process": the first validation of this run is repeated by a child process that has done
+	// nothing else (sorted map order, fresh objects) and must give the same verdict and sets
+	if len(rep.Violations) == 0 && rep.HarnessErr == "" {
+		var fops []Op
+		var fkeys []string
+		for i := range ops {
+			op := &ops[i]
+			if op.Kind != KSpec || op.COE == nil {
+				continue
+			}
+			key := fmt.Sprintf("%s|%v", op.Doc, *op.COE)
+			if _, ok := seen[key]; !ok {
+				continue
+			}
+			dup := false
+			for _, k := range fkeys {
+				if k == key {
+					dup = true
+				}
+			}
+			if dup || len(fops) >= 2 {
+				continue
+			}
+			f := *op
+			f.OrderSeed = 0
+			fops = append(fops, f)
+			fkeys = append(fkeys, key)
+		}
+		if len(fops) > 0 {
+			fouts, err := freshOutcomes(fops, nil)
+			if err != nil {
+				rep.HarnessErr = err.Error()
+				return rep
+			}
+			rep.fault("fresh-process-repetition", len(fops))
+			for k, fo := range fouts {
+				g := graphs[fops[k].Doc]
+				so := specOutcome{valid: fo.Valid, errors: normSet(fo.Errors, g), warnings: normSet(fo.Warnings, g), panic: fo.Panic}
+				if f := seen[fkeys[k]]; f.out.key() != so.key() {
+					rep.Violations = append(rep.Violations, Violation{Property: "C10", Class: "differs-from-fresh-process", OpUID: ops[f.op].UID, OpKind: KSpec,
+						Site: mismatchSpec(so, f.out), Expected: so.key(), Got: f.out.key(),
+						Detail: fmt.Sprintf("validation #%d (%s) differs from the same validation performed by a fresh process that did nothing else", f.op, ops[f.op].brief())})
+					break
+				}
 			}
 		}
 	}
@@ -402,11 +453,39 @@ func diffClass(a, b []string) string {
 	if len(only) == 0 {
 		return ""
 	}
+	tmpl := func(s string) string { return quotedRe.ReplaceAllString(s, "_") }
 	for i := range only {
-		only[i] = quotedRe.ReplaceAllString(only[i], "_")
+		only[i] = tmpl(only[i])
 	}
 	sort.Strings(only)
-	return only[0]
+	t := only[0]
+	// "~": both sides carry a message of this template, with different contents; "+": only one side has one at all
+	hasA, hasB := false, false
+	for _, x := range a {
+		if tmpl(x) == t {
+			hasA = true
+		}
+	}
+	for _, x := range b {
+		if tmpl(x) == t {
+			hasB = true
+		}
+	}
+	if hasA && hasB {
+		return "~" + t
+	}
+	return "+" + t
+}
+
+// templateIn tells whether set carries a message with the same template as msg.
+func templateIn(msg string, set []string) bool {
+	t := quotedRe.ReplaceAllString(msg, "_")
+	for _, x := range set {
+		if quotedRe.ReplaceAllString(x, "_") == t {
+			return true
+		}
+	}
+	return false
 }
 
 func init() {
